@@ -1,6 +1,7 @@
 import M3d.Gen.Kernels
 import M3d.Model.Collide
 import M3d.Model.CollideXf
+import M3d.Model.CollideAxis
 import M3d.Lemmas.KernelsTieCollide
 import Mathlib.Tactic.Ring
 import Mathlib.Tactic.SplitIfs
@@ -10,11 +11,12 @@ import Mathlib.Algebra.Order.Field.Basic
 
 `model3d.rayCollisionWithBounds` / `model2d.rayCollisionWithBounds` (bvh.go: the loop over the axes unrolled by the
 translator, `math.Inf(∓1)` as the two constants of the class `HasInf`), `model3d.Sphere.SphereCollision`,
-`model2d.Circle.CircleCollision`, `model3d.Capsule.Contains` (through `NewSegment`, `Segment.Closest`, `Segment.Dist`)
+`model2d.Circle.CircleCollision`, `model3d.Capsule.Contains` (through `NewSegment`, `Segment.Closest`, `Segment.Dist`), `model3d.Cylinder.Contains`
 as the Go source defines them NOW are the model functions `slabLoop` (with `none` for `∓∞`; `rect_hits`,
 `ray_scale_invariant_shapes`, `segment_bounds_test_sound`), `sphereBall`, `circleBall`
 (`transformed_ball_touches_iff_sphere`, `ball_touches_iff_sphere`) and `capsuleContains` (the origin-inside test of
-`Capsule.RayCollisions`, `capsule_phantom_contract`) of `M3d/Model/Collide*.lean`.
+`Capsule.RayCollisions`, `capsule_phantom_contract`) and `cylContains` (`cylinder_contains_iff`) of
+`M3d/Model/Collide*.lean`.
 
 The slab tie holds for every linear ordered field with ANY `HasInf` instance under the hypothesis that makes the two
 constants behave like infinities for the call (`AxFinite`: on every axis with a non-zero rate the two slab parameters lie
@@ -67,6 +69,13 @@ theorem capsule_contains_eq (p1 p2 : V3 K) (radius : K) (c : V3 K) :
     (letI := sqrtOf sq; model3d.Capsule_Contains ⟨g3 p1, g3 p2, radius⟩ (g3 c)) = capsuleContains sq p1 p2 radius c := by
   unfold model3d.Capsule_Contains model3d.Segment_Dist capsuleContains
   simp only [newSegment_eq, segment3_closest_eq, dist3]
+
+/-- `model3d.Cylinder.Contains` = `cylContains` (`M3d.C07.cylinder_contains_iff`: the closed cylinder; the "inside" of
+`cylinder_axis_rays` and `parity_inside_cylinder`) -/
+theorem cylinder_contains_eq (p1 p2 : V3 K) (radius : K) (p : V3 K) :
+    (letI := sqrtOf sq; model3d.Cylinder_Contains ⟨g3 p1, g3 p2, radius⟩ (g3 p)) = cylContains sq p1 p2 radius p := by
+  unfold model3d.Cylinder_Contains cylContains
+  simp only [sub3, normalize3, norm3, dot3, scale3, add3, dist3, gt_iff_lt, Bool.or_eq_true, decide_eq_true_eq]
 
 end sq
 
